@@ -68,9 +68,12 @@ WellFormed(sg) == IF sg.flat THEN sg.fb \in FlatFnB /\ sg.eb \in FlatEfnB
                              ELSE sg.fb \in MapFnB /\ sg.eb \in MapEfnB
 
 \* outcome: kind "V" value / "E" exception / "C" the stage's future is cancelled (never finishes);
-\* tb: the exception was re-raised by an error_fn, so its traceback must have been kept
+\* tb: the frames the exception object had when it was raised must still be in its traceback when it comes out
+\* (every exception the driver makes is raised in a known frame first; "the original exception object unchanged",
+\* "re-raising the same exception keeps it and its traceback"; the library's own TypeError is only judged once an
+\* error_fn has re-raised it)
 Out(kind, term, tb) == [kind |-> kind, term |-> term, tb |-> tb]
-InputOut(a) == IF a = 0 THEN Out("V", <<V0>>, FALSE) ELSE Out("E", <<EORIG>>, FALSE)
+InputOut(a) == IF a = 0 THEN Out("V", <<V0>>, FALSE) ELSE Out("E", <<EORIG>>, TRUE)
 
 \* ------------------------------------------------------------------ the law table
 \* one stage: expected outcome, whether fn / error_fn is entitled to a call, and the argument it must get
@@ -81,9 +84,9 @@ StageEval(i, sg, o) ==
         t == o.term
     IN [out |-> CASE b = ABSENT -> Out("V", t, FALSE)                             \* identity
                   [] b = RET /\ ~sg.flat -> Out("V", <<TagFn(i)>> \o t, FALSE)     \* fn(result)
-                  [] b = RAISE -> Out("E", <<ExcFn(i)>>, FALSE)                    \* exception raised by fn
+                  [] b = RAISE -> Out("E", <<ExcFn(i)>>, TRUE)                     \* exception raised by fn
                   [] b \in {FUT_V, FUT_PV} /\ sg.flat -> Out("V", <<TagInFn(i)>> \o t, FALSE)
-                  [] b \in {FUT_E, FUT_PE} /\ sg.flat -> Out("E", <<ExcInFn(i)>>, FALSE)
+                  [] b \in {FUT_E, FUT_PE} /\ sg.flat -> Out("E", <<ExcInFn(i)>>, TRUE)
                   [] b = FUT_C /\ sg.flat -> Out("C", <<>>, FALSE)
                   [] b = NONFUT /\ sg.flat -> Out("E", <<TYPEERR>>, FALSE)
                   [] OTHER -> Out("X", <<>>, FALSE),
@@ -93,10 +96,10 @@ StageEval(i, sg, o) ==
         x == o.term
     IN [out |-> CASE b = ABSENT -> Out("E", x, o.tb)                              \* the same exception object
                   [] b = RERAISE -> Out("E", x, TRUE)                              \* ... and its traceback
-                  [] b = RAISE -> Out("E", <<ExcEfn(i)>>, FALSE)
+                  [] b = RAISE -> Out("E", <<ExcEfn(i)>>, TRUE)
                   [] b = RET /\ ~sg.flat -> Out("V", <<TagEfn(i)>> \o x, FALSE)    \* error_fn(exception)
                   [] b \in {FUT_V, FUT_PV} /\ sg.flat -> Out("V", <<TagInEfn(i)>> \o x, FALSE)
-                  [] b \in {FUT_E, FUT_PE} /\ sg.flat -> Out("E", <<ExcInEfn(i)>>, FALSE)
+                  [] b \in {FUT_E, FUT_PE} /\ sg.flat -> Out("E", <<ExcInEfn(i)>>, TRUE)
                   [] b = FUT_C /\ sg.flat -> Out("C", <<>>, FALSE)
                   [] b = NONFUT /\ sg.flat -> Out("E", <<TYPEERR>>, FALSE)
                   [] OTHER -> Out("X", <<>>, FALSE),
